@@ -982,6 +982,21 @@ pub fn sanitize(v: &mut Value) -> bool {
   let mut changed = false;
   match v {
     Value::Object(m) => {
+      // `top_hits.size/from` and `moving_avg.predict` size an allocation directly (see the
+      // isolated stream); in-process they stay <= 10^6
+      let big = |v: &Value| v.as_f64().map(|x| x > 1.0e6).unwrap_or(false);
+      if m.get("type") == Some(&json!("top_hits")) {
+        for k in ["size", "from"] {
+          if m.get(k).map(big).unwrap_or(false) {
+            m.insert(k.into(), json!(1_000_000));
+            changed = true;
+          }
+        }
+      }
+      if m.get("predict").map(big).unwrap_or(false) {
+        m.insert("predict".into(), json!(1_000_000));
+        changed = true;
+      }
       let has_bounds = ["extended_bounds", "hard_bounds"].iter().any(|k| m.get(*k).map(|b| !b.is_null()).unwrap_or(false));
       let is_hist = m.contains_key("interval") || m.contains_key("fixed_interval") || m.contains_key("calendar_interval");
       if has_bounds && is_hist {
@@ -1039,4 +1054,43 @@ pub fn sanitize(v: &mut Value) -> bool {
     _ => {}
   }
   changed
+}
+
+// ---------------------------------------------------------------- isolated stream: one huge size per request
+
+/// (label, request) with exactly one size-like parameter set to `huge`; run in a child
+/// process because an allocation failure aborts the process
+pub fn huge_param_request(rng: &mut Rng, huge: u64) -> (String, Value) {
+  let base = |q: Value| json!({"query": q, "limit": 3, "return_stored": false, "highlight_field": null});
+  let ma = json!({"type": "match_all"});
+  let k = rng.below(26);
+  let (label, req): (&str, Value) = match k {
+    0 => ("limit", { let mut r = base(ma); r["limit"] = json!(huge); r }),
+    1 => ("candidate_size", { let mut r = base(json!("rust")); r["candidate_size"] = json!(huge); r }),
+    2 => ("bmw_block_size", { let mut r = base(json!("rust search")); r["execution"] = json!("bmw"); r["bmw_block_size"] = json!(huge); r }),
+    3 => ("aggs.top_hits.size", { let mut r = base(ma); r["aggs"] = json!({"a": {"type": "top_hits", "size": huge}}); r }),
+    4 => ("aggs.top_hits.from", { let mut r = base(ma); r["aggs"] = json!({"a": {"type": "top_hits", "size": 1, "from": huge}}); r }),
+    5 => ("aggs.terms.size", { let mut r = base(ma); r["aggs"] = json!({"a": {"type": "terms", "field": "tag", "size": huge}}); r }),
+    6 => ("aggs.terms.shard_size", { let mut r = base(ma); r["aggs"] = json!({"a": {"type": "terms", "field": "tag", "size": 2, "shard_size": huge}}); r }),
+    7 => ("aggs.composite.size", { let mut r = base(ma); r["aggs"] = json!({"a": {"type": "composite", "size": huge, "sources": [{"type": "terms", "name": "t", "field": "tag"}]}}); r }),
+    8 => ("aggs.moving_avg.predict", { let mut r = base(ma); r["aggs"] = json!({"h": {"type": "histogram", "field": "n", "interval": 5.0, "aggs": {"m": {"type": "moving_avg", "buckets_path": "_count", "window": 2, "predict": huge}}}}); r }),
+    9 => ("aggs.moving_avg.window", { let mut r = base(ma); r["aggs"] = json!({"h": {"type": "histogram", "field": "n", "interval": 5.0, "aggs": {"m": {"type": "moving_avg", "buckets_path": "_count", "window": huge}}}}); r }),
+    10 => ("aggs.cardinality.precision_threshold", { let mut r = base(ma); r["aggs"] = json!({"a": {"type": "cardinality", "field": "tag", "precision_threshold": huge}}); r }),
+    11 => ("aggs.bucket_sort.size", { let mut r = base(ma); r["aggs"] = json!({"h": {"type": "terms", "field": "tag", "aggs": {"b": {"type": "bucket_sort", "sort": [{"_count": "desc"}], "size": huge}}}}); r }),
+    12 => ("aggs.bucket_sort.from", { let mut r = base(ma); r["aggs"] = json!({"h": {"type": "terms", "field": "tag", "aggs": {"b": {"type": "bucket_sort", "sort": [{"_count": "desc"}], "from": huge}}}}); r }),
+    13 => ("aggs.significant_terms.size", { let mut r = base(json!("rust")); r["aggs"] = json!({"a": {"type": "significant_terms", "field": "tag", "size": huge}}); r }),
+    14 => ("aggs.rare_terms.size", { let mut r = base(ma); r["aggs"] = json!({"a": {"type": "rare_terms", "field": "tag", "size": huge}}); r }),
+    15 => ("aggs.sampling.size", { let mut r = base(ma); r["aggs"] = json!({"a": {"type": "terms", "field": "tag", "sampling": {"size": huge}}}); r }),
+    16 => ("highlight.number_of_fragments", { let mut r = base(json!("rust")); r["highlight"] = json!({"fields": {"body": {"number_of_fragments": huge}}}); r["return_stored"] = json!(true); r }),
+    17 => ("highlight.fragment_size", { let mut r = base(json!("rust")); r["highlight"] = json!({"fields": {"body": {"fragment_size": huge}}}); r }),
+    18 => ("collapse.inner_hits.size", { let mut r = base(ma); r["collapse"] = json!({"field": "tag", "inner_hits": {"size": huge}}); r }),
+    19 => ("collapse.inner_hits.from", { let mut r = base(ma); r["collapse"] = json!({"field": "tag", "inner_hits": {"size": 2, "from": huge}}); r }),
+    20 => ("suggest.size", { let mut r = base(ma); r["suggest"] = json!({"s": {"type": "completion", "field": "body", "prefix": "r", "size": huge}}); r }),
+    21 => ("rescore.window_size", { let mut r = base(json!("rust")); r["rescore"] = json!({"window_size": huge, "query": {"type": "term", "field": "body", "value": "search"}}); r }),
+    22 => ("fuzzy.max_expansions", { let mut r = base(json!("rust")); r["fuzzy"] = json!({"max_edits": 2, "max_expansions": huge, "prefix_length": 0, "min_length": 0}); r }),
+    23 => ("prefix.max_expansions", base(json!({"type": "prefix", "field": "body", "value": "r", "max_expansions": huge}))),
+    24 => ("phrase.slop", base(json!({"type": "phrase", "field": "body", "terms": ["rust", "search"], "slop": huge}))),
+    _ => ("bool.minimum_should_match", base(json!({"type": "bool", "should": [{"type": "term", "field": "body", "value": "rust"}], "minimum_should_match": huge}))),
+  };
+  (label.to_string(), req)
 }
